@@ -23,7 +23,7 @@ func (c03) ID() string { return "C03" }
 
 func (c03) Budget(tier string) int {
 	if tier == "thorough" {
-		return 300000
+		return 1500000
 	}
 	return 48000
 }
